@@ -363,6 +363,21 @@ func errLeaves(c *Config, v ssa.Value, depth int) []errLeaf {
 			return out
 		}
 	}
+	// an internal helper that builds the error: the leaves of what it returns
+	if call, ok := v.(*ssa.Call); ok {
+		if callee := call.Call.StaticCallee(); callee != nil && len(callee.Blocks) > 0 && callee.Pkg != nil &&
+			strings.HasPrefix(callee.Pkg.Pkg.Path(), modPath) && callee.Signature.Results().Len() == 1 && isErrorType(callee.Signature.Results().At(0).Type()) {
+			var out []errLeaf
+			for _, r := range returnsOf(callee) {
+				for _, rv := range resolveRaw(r.Results[0]) {
+					out = append(out, errLeaves(c, rv, depth+2)...)
+				}
+			}
+			if len(out) > 0 {
+				return out
+			}
+		}
+	}
 	return []errLeaf{{"?" + v.String(), false}}
 }
 
